@@ -130,6 +130,9 @@ func progReadMetas(env *fw.Env) []progMeta {
 
 var reBuildPkg = regexp.MustCompile(`(?m)^# ` + progModule + `/lib/(\S+)`)
 
+// progBuildFlags are extra `go build` flags of the running check (C09 disables inlining).
+var progBuildFlags []string
+
 var reLoadErr = regexp.MustCompile(`(?m)^package ` + progModule + `/lib/(\S+)\n\t.*$`)
 
 func goCmd(dir string, args ...string) (string, error) {
@@ -150,7 +153,7 @@ func progBuildAll(env *fw.Env) (failed map[string]string, err error) { return pr
 func progBuild(env *fw.Env, link bool) (failed map[string]string, err error) {
 	dir := filepath.Join(env.Scratch, "mod")
 	failed = map[string]string{}
-	text, runErr := goCmd(dir, "build", "./lib/...")
+	text, runErr := goCmd(dir, append(append([]string{"build"}, progBuildFlags...), "./lib/...")...)
 	if runErr != nil {
 		locs := reBuildPkg.FindAllStringSubmatchIndex(text, -1)
 		for i, m := range locs {
@@ -171,7 +174,7 @@ func progBuild(env *fw.Env, link bool) (failed map[string]string, err error) {
 			if !dropped {
 				return failed, fmt.Errorf("go build failed: %s", clipS(text, 2000))
 			}
-			text2, err2 := goCmd(dir, "build", "./lib/...")
+			text2, err2 := goCmd(dir, append(append([]string{"build"}, progBuildFlags...), "./lib/...")...)
 			if err2 != nil {
 				locs := reBuildPkg.FindAllStringSubmatchIndex(text2, -1)
 				if len(locs) == 0 {
@@ -209,7 +212,7 @@ func progBuild(env *fw.Env, link bool) (failed map[string]string, err error) {
 	if err := os.WriteFile(filepath.Join(dir, "disp", "main.go"), []byte(b.String()), 0o644); err != nil {
 		return failed, err
 	}
-	if text, err := goCmd(dir, "build", "-o", "bin/disp", "./disp"); err != nil {
+	if text, err := goCmd(dir, append(append([]string{"build"}, progBuildFlags...), "-o", "bin/disp", "./disp")...); err != nil {
 		return failed, fmt.Errorf("linking the dispatcher failed: %s", clipS(text, 2000))
 	}
 	return failed, nil
